@@ -41,6 +41,7 @@ type c15state struct {
 	ev         *evid.Rec
 	addr       int
 	pendingOld []string // logins renamed away / deleted, not yet probed
+	refused    int
 }
 
 var c15LoginPool = []string{"alice", "bob", "Bob", "al ice", "a.b", "..a", "*", "x\ny", "caf\xe9", "\xff\xfe", "-", "~", "#1", "a b c", "guest2", strings.Repeat("L", 200), "q:r", "tab\there", "yaml: {x}", "'quoted'"}
@@ -308,10 +309,22 @@ func c15prop(ev *evid.Rec) func(rt *rapid.T) {
 				"newUser": func(rt *rapid.T) {
 					s.rt = rt
 					l, _ := s.genLogin("login", false, false)
+					if rapid.IntRange(0, 5).Draw(rt, "longlogin") == 0 {
+						// logins at the edge of what a file name can hold: <login>.yaml fits, the temporary name used while writing may not
+						l = strings.Repeat("M", rapid.SampledFrom([]int{245, 246, 247, 248, 250}).Draw(rt, "loginlen"))
+					}
 					pw, name, acc := s.genPw("pw"), s.genName("name"), s.genAccess("acc").Defined() // creation must stay within the creator's (defined) privileges: C06
 					rec("new-user %q pw=%q", l, pw)
 					r := s.admin.Request(hlref.TranNewUser, hlref.F(hlref.FUserLogin, hlref.Obfuscate([]byte(l))), hlref.F(hlref.FUserName, []byte(name)),
 						hlref.F(hlref.FUserPassword, hlref.Obfuscate([]byte(pw))), hlref.F(hlref.FUserAccess, acc[:]))
+					if _, exists := s.model[l]; !exists && len(l) > 240 && (r == nil || r.Err != 0) {
+						// refused (the account file cannot be written): then the account must not exist in any view - the invariant
+						// and the login attempt check exactly that, the model stays as it was
+						rec("  (refused)")
+						s.expectLogin(l, pw, "after a refused new-user")
+						s.refused++
+						return
+					}
 					if _, exists := s.model[l]; exists {
 						if r == nil || r.Err == 0 {
 							rt.Fatalf("new-user for existing login %q was not refused", l)
